@@ -11,5 +11,5 @@ fn main() {
     }
     let args = mcutil::Args::parse();
     mcutil::silence_panics();
-    std::process::exit(props::run(&args));
+    mcutil::guarded_main(|| props::run(&args));
 }
